@@ -331,6 +331,26 @@ func (c *Ctx) Eq(a, b *Term) *Term {
 			return c.Not(a)
 		}
 	}
+	// equalities on non-overflowing products with a constant
+	if a.Sort.K == KBV {
+		x, y := a, b
+		if y.Op == OpBVMul && y.NoOvf {
+			x, y = y, x
+		}
+		if x.Op == OpBVMul && x.NoOvf && x.Args[1].Op == OpBVConst {
+			k := sext(x.Args[1].Val, x.Sort.W)
+			if y.Op == OpBVConst && k != 0 {
+				cv := sext(y.Val, y.Sort.W)
+				if cv%k != 0 {
+					return c.F
+				}
+				return c.Eq(x.Args[0], c.BVConst(uint64(cv/k), x.Sort.W))
+			}
+			if y.Op == OpBVMul && y.NoOvf && y.Args[1] == x.Args[1] && k != 0 {
+				return c.Eq(x.Args[0], y.Args[0])
+			}
+		}
+	}
 	if a.id > b.id {
 		a, b = b, a
 	}
@@ -560,6 +580,10 @@ func (c *Ctx) BVUn(op Op, a *Term) *Term {
 	if a.Op == op {
 		return a.Args[0]
 	}
+	if op == OpBVNeg && a.Op == OpBVMul && a.NoOvf && a.Args[1].Op == OpBVConst {
+		// -(x*k) = (-x)*k, still without overflow
+		return c.MulNoOvf(c.BVUn(OpBVNeg, a.Args[0]), a.Args[1].Val)
+	}
 	return c.mk(&Term{Op: op, Sort: a.Sort, Args: []*Term{a}})
 }
 
@@ -583,6 +607,15 @@ func (c *Ctx) Cmp(op Op, a, b *Term) *Term {
 	}
 	if a == b {
 		return c.Bool(op == OpULe || op == OpSLe)
+	}
+	// sign of a non-overflowing product with a positive constant
+	if op == OpSLt || op == OpSLe {
+		if a.Op == OpBVMul && a.NoOvf && a.Args[1].Op == OpBVConst && sext(a.Args[1].Val, w) > 0 && isZero(b) {
+			return c.Cmp(op, a.Args[0], b)
+		}
+		if b.Op == OpBVMul && b.NoOvf && b.Args[1].Op == OpBVConst && sext(b.Args[1].Val, w) > 0 && isZero(a) {
+			return c.Cmp(op, a, b.Args[0])
+		}
 	}
 	return c.mk(&Term{Op: op, Sort: BoolSort, Args: []*Term{a, b}})
 }
